@@ -40,6 +40,7 @@ import (
 	"github.com/robustirc/robustirc/internal/raftstore"
 	"github.com/robustirc/robustirc/internal/robust"
 	"github.com/robustirc/robustirc/internal/verifsim/core"
+	"github.com/robustirc/robustirc/internal/verifsim/verifdisk"
 )
 
 const e2Password = "netpw"
@@ -91,6 +92,11 @@ type e2Node struct {
 	trans *rafthttp.HTTPTransport
 	api   *api.HTTP
 	fss   raft.SnapshotStore
+	dirA     atomic.Value
+	reaped   atomic.Bool
+	killIn   atomic.Int64 // >0: the process dies at its killIn-th next storage operation
+	killTorn atomic.Int64
+	forks    int
 	aliveA atomic.Bool
 	incA   atomic.Int64
 	stopExpire context.CancelFunc
@@ -155,6 +161,7 @@ func (n *e2Node) start(bootstrap bool, servers []raft.Server) error {
 		return err
 	}
 	n.incA.Add(1)
+	n.dirA.Store(n.dir)
 	n.irc = ircserver.NewIRCServer(e1Network, time.Now())
 	var err error
 	if n.out, err = outputstream.NewOutputStream(n.dir); err != nil {
@@ -236,6 +243,67 @@ func (n *e2Node) start(bootstrap bool, servers []raft.Server) error {
 	return nil
 }
 
+// dirNow is read inside file operations (possibly while n.mu is held by the caller), so it must not lock.
+func (n *e2Node) dirNow() string {
+	if v, ok := n.dirA.Load().(string); ok {
+		return v
+	}
+	return n.dir
+}
+
+// killAtOp runs inside a file operation of node n (under the storage lock): fork the directory, then the
+// node is dead to the world; its goroutines are stopped in the background.
+func (r *e2Run) killAtOp(n *e2Node, kind string, torn int) {
+	old := n.dirNow()
+	n.forks++
+	fork := fmt.Sprintf("%s.fork%d", strings.TrimSuffix(old, filepath.Ext(old)), n.forks)
+	if err := verifdisk.CopyTree(old, fork); err != nil {
+		r.count("fork_errors", 1)
+		return
+	}
+	n.aliveA.Store(false)
+	n.dir = fork // only the driver reads n.dir, and only after it saw the node dead
+	n.dirA.Store(fork)
+	r.count("kills_inside_storage_op", 1)
+	r.count("kill_inside_"+kind, 1)
+	if torn > 0 && kind == "write" {
+		r.count("torn_writes", 1)
+	}
+	r.tr.Log("kill n%d inside %s", n.idx, kind)
+	n.reaped.Store(false)
+	go n.reap()
+}
+
+// reap stops the goroutines of a dead incarnation (its state is not used any more).
+func (n *e2Node) reap() {
+	n.stopExpire()
+	rf := n.raft
+	done := make(chan struct{})
+	go func() { rf.Shutdown().Error(); close(done) }()
+	select {
+	case <-done:
+	case <-time.After(30 * time.Second):
+	}
+	e2GlobalMu.Lock()
+	n.mu.Lock()
+	if n.out != nil {
+		n.run.zombieMu.Lock()
+		n.run.zombieOut = append(n.run.zombieOut, n.out)
+		n.run.zombieMu.Unlock()
+		n.out = nil
+	}
+	st1, st2 := n.fsm, n.logs
+	n.mu.Unlock()
+	e2GlobalMu.Unlock()
+	if st1 != nil && st1.ircstore != nil {
+		st1.ircstore.Close()
+	}
+	if st2 != nil {
+		st2.Close()
+	}
+	n.reaped.Store(true)
+}
+
 // kill: the process dies. Nothing it says reaches anybody any more; memory is lost; the directory stays.
 func (n *e2Node) kill() {
 	if !n.aliveA.Load() {
@@ -259,7 +327,9 @@ func (n *e2Node) kill() {
 	// handlers of the dead incarnation may still be running (in a real process they would die with it):
 	// its volatile output database is only closed at the end of the run
 	if n.out != nil {
+		n.run.zombieMu.Lock()
 		n.run.zombieOut = append(n.run.zombieOut, n.out)
+		n.run.zombieMu.Unlock()
 	}
 	if n.fsm != nil && n.fsm.ircstore != nil {
 		n.fsm.ircstore.Close()
@@ -469,6 +539,7 @@ type e2Run struct {
 	prop    string
 	stepIdx int
 	zombieOut []*outputstream.OutputStream
+	zombieMu  sync.Mutex
 	sessionsMayEnd bool
 	retried      map[[2]uint64]string
 	retriedMu    sync.Mutex
@@ -1217,7 +1288,16 @@ func (e2Engine) Generate(seed uint64, prop, tier string) (json.RawMessage, error
 	for i := 0; i < nf; i++ {
 		at := int64(g.Range(500, int(sc.Duration)-2000))
 		n := g.Intn(sc.Nodes)
-		switch r := g.Intn(100); {
+		switch r := g.Intn(115); {
+		case r >= 100:
+			// the process dies inside a storage operation (journal write of the raft log or of the applied-log
+			// copy, manifest update, snapshot file ...), optionally leaving a torn write behind
+			torn := 0
+			if g.Chance(1, 2) {
+				torn = g.Range(1, 60)
+			}
+			sc.Steps = append(sc.Steps, e2Step{At: at, K: "killop", N: n, Ms: int64(g.Intn(25)), P: torn})
+			sc.Steps = append(sc.Steps, e2Step{At: at + int64(g.Range(1500, 9000)), K: "restart", N: n})
 		case r < 30:
 			sc.Steps = append(sc.Steps, e2Step{At: at, K: "kill", N: n})
 			sc.Steps = append(sc.Steps, e2Step{At: at + int64(g.Range(500, 8000)), K: "restart", N: n})
@@ -1315,9 +1395,23 @@ func (r *e2Run) doStep(st e2Step) {
 		}
 		r.count("kill_all", 1)
 		r.tr.Log("killall")
+	case "killop":
+		n := r.nodes[st.N%len(r.nodes)]
+		if n.aliveA.Load() && n.killIn.Load() == 0 {
+			n.killTorn.Store(int64(st.P))
+			n.killIn.Store(int64(1 + st.Ms))
+			r.count("op_kills_armed", 1)
+		}
 	case "restart", "restartall":
 		for _, n := range r.nodes {
 			if (st.K == "restartall" || n.idx == st.N%len(r.nodes)) && !n.aliveA.Load() {
+				if n.forks > 0 && !n.reaped.Load() {
+					// the zombie of an operation-level kill is still being stopped
+					for w := 0; w < 400 && !n.reaped.Load(); w++ {
+						time.Sleep(100 * time.Millisecond)
+					}
+				}
+				n.killIn.Store(0)
 				if err := n.start(false, nil); err != nil {
 					r.res.Inconclusive = "harness: restart: " + err.Error()
 					return
@@ -1378,6 +1472,24 @@ func e2Execute(t *testing.T, sc *e2Scenario, prop string, res *core.Result) erro
 	r := &e2Run{sc: sc, res: res, tr: &core.Trace{}, src: core.NewSource(sc.Seed), root: root, ctx: ctx, stop: stop, prop: prop, retried: map[[2]uint64]string{}}
 	e2Current = r
 	defer func() { e2Current = nil }()
+	// process kill at storage-operation granularity: the node's whole directory is forked at the chosen file
+	// operation (optionally after a torn prefix of the write); the old incarnation goes on as a zombie that
+	// nobody hears and is shut down; the restart uses the fork
+	verifdisk.Install(&verifdisk.Controller{Decide: func(dir, kind string) (func(), int) {
+		for _, n := range r.nodes {
+			if !strings.HasPrefix(dir, n.dirNow()+string(filepath.Separator)) || !n.aliveA.Load() {
+				continue
+			}
+			if k := n.killIn.Load(); k > 0 {
+				if n.killIn.Add(-1) == 0 {
+					torn := int(n.killTorn.Load())
+					return func() { r.killAtOp(n, kind, torn) }, torn
+				}
+			}
+		}
+		return nil, 0
+	}})
+	defer func() { verifdisk.ReleaseAll(); verifdisk.Install(nil) }()
 	robusthttp.VerifTransport = func(deadlined bool) http.RoundTripper { return &e2RoundTripper{} }
 	robusthttp.VerifClient = func(password string, deadlined bool) rafthttp.Doer { return &e2Doer{run: r, src: -1, auth: true} }
 	defer func() { robusthttp.VerifTransport, robusthttp.VerifClient = nil, nil }()
@@ -1469,8 +1581,14 @@ func e2Execute(t *testing.T, sc *e2Scenario, prop string, res *core.Result) erro
 	r.sideAv.Store(map[int]bool{})
 	r.lossA.Store(0)
 	for _, n := range r.nodes {
+		n.killIn.Store(0) // no fault may fire after this point
+	}
+	for _, n := range r.nodes {
 		n.slowA.Store(0)
 		if !n.aliveA.Load() {
+			for w := 0; n.forks > 0 && !n.reaped.Load() && w < 400; w++ {
+				time.Sleep(100 * time.Millisecond)
+			}
 			if err := n.start(false, nil); err != nil {
 				shutdown()
 				return err
